@@ -330,7 +330,7 @@ func (r *deserContext) decodeBinary() Item {
 		return NewBigInteger(num)
 	case ArrayT, StructT:
 		size := int(r.ReadVarUint())
-		if size > r.limit {
+		if size < 0 || size > r.limit {
 			r.Err = errTooBigElements
 			return nil
 		}
